@@ -9,7 +9,7 @@ namespace {
 using namespace BaseGraph;
 
 struct Counters {
-    uint64_t roundTrips = 0, linesParsedIndependently = 0, formatFiles = 0, commentLines = 0, whitespaceRuns = 0, nameFiles = 0, namesChecked = 0, labelReads = 0,
+    uint64_t largeIndexGraphs = 0, roundTrips = 0, linesParsedIndependently = 0, formatFiles = 0, commentLines = 0, whitespaceRuns = 0, nameFiles = 0, namesChecked = 0, labelReads = 0,
              fuzzInputs = 0, fuzzReturned = 0, fuzzThrew = 0, zeroVertexGraphs = 0, noEdgeGraphs = 0, isolatedTails = 0, filesWithoutFinalNewline = 0;
     uint64_t fuzzByExc[6] = {0};
     ObsCounters oc;
@@ -102,11 +102,16 @@ template <class G, class L> std::string compareLoaded(G &loaded, const GraphSpec
         return o.str();
     }
     loaded.resize(s.n);
-    Expect x;
-    x.directed = s.directed;
-    x.n = s.n;
-    for (auto &e : s.edges) x.e[e] = Expect::Cell();
-    std::string e = checkStructure(loaded, x, C.oc);
+    std::string e;
+    if (s.n > 64) {
+        e = checkSparse(loaded, s);
+    } else {
+        Expect x;
+        x.directed = s.directed;
+        x.n = s.n;
+        for (auto &e2 : s.edges) x.e[e2] = Expect::Cell();
+        e = checkStructure(loaded, x, C.oc);
+    }
     if (!e.empty()) return "loaded graph: " + e;
     for (auto &kv : labels) {
         ++C.labelReads;
@@ -125,7 +130,8 @@ template <template <class...> class GT, class L> void roundtrip(Reporter &R, uin
     constexpr bool directed = Dir<GT>::value;
     std::string cls = std::string(Dir<GT>::name()) + "<" + lname<L>() + ">";
     Rng r = caseRng(R.args.seed, hashStr(cls + "rt"), sub);
-    GraphSpec s = ioSpec(r, directed);
+    GraphSpec s = sub % 4 == 3 ? ioSpecSparse(r, directed) : ioSpec(r, directed);
+    if (s.n > 64) ++C.largeIndexGraphs;
     if (s.n == 0) ++C.zeroVertexGraphs;
     if (s.edges.empty()) ++C.noEdgeGraphs;
     if (s.n > usedSize(s)) ++C.isolatedTails;
@@ -187,7 +193,7 @@ template <template <class...> class GT, class L> void roundtrip(Reporter &R, uin
         auto pr = loadIndexed<GT, L>(path);
         unlink(path.c_str());
         ++C.roundTrips;
-        R.digest(content + snapshot(pr.first));
+        R.digest(s.n > 64 ? content : content + snapshot(pr.first));
         err = compareLoaded<GT<L>, L>(pr.first, s, labels, &g);
         if (!err.empty()) R.violation(cls + "/text-round-trip/" + err.substr(0, err.find_first_of(":(")), err + "; graph " + s.str());
     } catch (std::exception &ex) {
@@ -531,6 +537,7 @@ template <template <class...> class GT, class L> void fuzz(Reporter &R, uint64_t
 void flush(Reporter &R) {
     C.oc.flush(R);
     R.count("text_round_trips", C.roundTrips);
+    R.count("graphs_with_large_vertex_indices", C.largeIndexGraphs);
     R.count("written_lines_parsed_independently", C.linesParsedIndependently);
     R.count("well_formed_files_loaded", C.formatFiles);
     R.count("comment_lines_generated", C.commentLines);
